@@ -48,6 +48,9 @@ def run(rep, work, tier, seed, only=None):
             exp_rc = 9 if ev['kind'].startswith('kill') else 0
             # a kill point that is never reached (fewer trials/saves were needed than its position) lets the run finish normally:
             # os._exit(9) cannot return 0, so exit status 0 means the run completed and it is judged as a complete run
+            if ev.get('resume_in_process'):
+                ev = {'kind': 'none'}      # interrupted and restarted within one process: judged as a run that completed
+                st = dict(st, executed=None)
             unreached = ev['kind'].startswith('kill') and st['rc'] == 0
             if unreached:
                 ev = {'kind': 'none'}
